@@ -32,7 +32,7 @@ func cases(tier string) int {
 	if tier == "thorough" {
 		return 45000 // 30 000 models + 6 000 projects + 9 000 name lists
 	}
-	return 1500 // 1 000 models + 200 projects + 300 name lists
+	return 4500 // 3 000 models + 600 projects + 900 name lists
 }
 
 // every Nth case of a kind also goes through the real binary
